@@ -165,6 +165,9 @@ def run(ctx):
     from .c20 import thread_local_buffers
     thread_local_buffers(ctx, 'C02.8-no-leftovers-between-calls')
     tl_borrow_not_across_parser(ctx, 'C02.8-no-borrow-across-the-parser')
+    # a limit kept on the thread (nesting depth) that a refused input leaves advanced refuses valid input later
+    from .c15 import scoped_thread_local_restored
+    scoped_thread_local_restored(ctx, 'C02.8-scoped-state-restored')
 
 
 def tl_borrow_not_across_parser(ctx, rule):
